@@ -25,9 +25,12 @@ class LockstepController:
     """Pairs every random request of the code under test with the next request of the reference
     interpreter; both resolve at the same quantile u of their own law."""
 
-    def __init__(self, refgen, sched):
+    def __init__(self, refgen, sched, mirror=False):
         self.ref = refgen
         self.sched = sched
+        self.mirror = set(mirror or ())
+        self.mirrored = 0
+        self.mismatch_sigs = set()
         self.events = []
         self.pending = None
         self.ref_result = None
@@ -46,6 +49,10 @@ class LockstepController:
         except (refinterp.Inconclusive, refinterp.RefRefuses) as e:
             self.pending = None
             self.ref_exc = e
+        except (ArithmeticError, ValueError) as e:
+            # float underflow / overflow in a law parameter (e.g. a rate of 1e-400): the run cannot be judged
+            self.pending = None
+            self.ref_exc = refinterp.Inconclusive(f"arithmetic error in the reference: {type(e).__name__}")
 
     def request(self, law_p, entry):
         law_r = self.pending
@@ -60,8 +67,22 @@ class LockstepController:
             self.law_mismatch += 1
             if self.first_mismatch is None:
                 self.first_mismatch = {"draw": len(self.events), "polar": law_p.describe(), "ref": law_r.describe()}
-        self.events.append({"entry": entry, "polar": law_p.describe(), "ref": law_r.describe(), "same": same, "u": u})
-        self._advance(u)
+        self.events.append({"entry": entry, "polar": law_p.describe(), "ref": law_r.describe(), "same": same, "u": u,
+                            "at": [refinterp.CTX["sample"], refinterp.CTX["iteration"], refinterp.CTX["target"]]})
+        sig = None
+        if law_p.kind == "cont" and law_r.kind == "cont":
+            # u -> Q(1-u) pushes the uniform law forward to the same law as u -> Q(u): antithetic use of a draw is legitimate
+            sig = f"{law_p.name}->{law_r.name}" + ("=" if same else "!")
+            self.mismatch_sigs.add(sig)
+        if sig is not None:
+            self.events[-1]["sig"] = sig
+        if sig is not None and self.mirror and sig in self.mirror:
+            # further attempt of a case: the implementation may post-process this kind of draw with a decreasing map
+            # (inverse transform with -log(U), say); then its u-quantile is the reference's (1-u)-quantile
+            self.mirrored += 1
+            self._advance(-u)
+        else:
+            self._advance(u)
         return u
 
     def drain(self):
@@ -101,8 +122,48 @@ def _close(p, r, scale):
 
 
 def run_case(case):
-    """Execute one lock-step case.  Returns a dict with outcome in
-    {ok, violation, inconclusive, polar_refused, both_refused, polar_error}."""
+    """Execute one lock-step case; a violating case in which the implementation requested continuous laws other than the
+    reference's is attempted once more with mirrored coupling for those draws before it is reported."""
+    first = out = _run_case(case, mirror=case.get("mirror"))
+    if case.get("mirror"):
+        return out
+    mirror = set()
+    for _ in range(10):
+        if out.get("outcome") != "violation":
+            break
+        # which continuous draw feeds the earliest mismatching variable?  Try the antithetic orientation for its kind of draw.
+        bad = {(p.get("sample"), p.get("iteration"), p.get("var")) for p in out.get("problems", []) if p.get("kind") == "state"}
+        pick = None
+        for e in out.get("cont_events", []):
+            sa, it, target = e["at"]
+            if e["sig"] not in mirror and (sa, it + 1, target) in bad:
+                pick = e["sig"]
+                break
+        if pick is None:
+            break
+        mirror.add(pick)
+        out = _run_case(case, mirror=mirror)
+    if out.get("outcome") == "violation":
+        # the guided search did not settle it (the mismatching variable is computed from an overwritten draw, say):
+        # enumerate orientations, kinds of draw whose seam law differs from the reference law first
+        from itertools import combinations
+        sigs = sorted({e["sig"] for e in first.get("cont_events", [])}, key=lambda g: (g.endswith("="), g))
+        subsets = [set(c) for k in range(1, len(sigs) + 1) for c in combinations(sigs, k)]
+        subsets.sort(key=lambda c: (sum(1 for g in c if g.endswith("=")), len(c)))
+        for m in subsets[:48]:
+            out = _run_case(case, mirror=m)
+            if out.get("outcome") != "violation":
+                mirror = m
+                break
+    if out.get("outcome") != "violation" and out.get("mirrored", 0) > 0:
+        out["notes"].append(f"values agree under antithetic quantile coupling for {sorted(mirror)} (decreasing post-processing of a draw)")
+        out["mirror"] = sorted(mirror)
+        return out
+    return first
+
+
+def _run_case(case, mirror=False):
+    """Returns a dict with outcome in {ok, violation, inconclusive, polar_refused, both_refused, polar_error}."""
     Parser, Simulator = _polar_imports()
     import utils.identifiers as ident
 
@@ -119,7 +180,7 @@ def run_case(case):
     rng = _random.Random(case.get("seed", 0))
     sched = Scheduler(rng, case.get("policy", "mixed"), case.get("script"))
     trace = []
-    ctl = LockstepController(refinterp.run(prog, iters, samples, trace), sched)
+    ctl = LockstepController(refinterp.run(prog, iters, samples, trace), sched, mirror=mirror)
     rngseam.set_controller(ctl)
     try:
         try:
@@ -159,6 +220,8 @@ def run_case(case):
         out["unscripted"] = True
         return out
     out["draws"] = len(ctl.events)
+    out["mirrored"] = ctl.mirrored
+    out["cont_events"] = [{"at": e["at"], "sig": e["sig"]} for e in ctl.events if e.get("sig")][:400]
     out["script"] = list(sched.used)
     out["n_extreme"] = sched.n_extreme
     out["trace_sig"] = _digest(trace)
@@ -446,6 +509,8 @@ def run_sampler_case(case):
     seam_same = True
     fp0 = rngseam.rng_fingerprint()
     unscripted = False
+    qproblems = []
+    mirror_ok = law_r.kind == "cont"
     for u in us:
         c = One(u)
         rngseam.set_controller(c)
@@ -468,9 +533,15 @@ def run_sampler_case(case):
             unscripted = True
             fp0 = rngseam.rng_fingerprint()
         elif not _close(v, rv, 1.0):
-            problems.append({"kind": "quantile", "u": u, "polar": v, "ref": rv})
+            qproblems.append({"kind": "quantile", "u": u, "polar": v, "ref": rv})
+        if law_r.kind == "cont" and not _close(v, law_r.quantile_upper(u), 1.0):
+            mirror_ok = False
         if not _in_support(v, support, sub):
             problems.append({"kind": "support", "u": u, "value": v, "support": str(support)})
+    if qproblems and mirror_ok:
+        out["notes"].append("quantile function is the mirrored one (decreasing post-processing of the draw): same law")
+    else:
+        problems += qproblems
     # moments the analysis uses, against the same law
     kmax = case.get("kmax", 3)
     if not state:
